@@ -424,11 +424,39 @@ func (st *State) external(caller *frame, fn *ssa.Function, args []Value) Value {
 		cell := new(Value)
 		*cell = &Native{"file:" + st.concStr(args[0], name)}
 		return Tuple{cell, Iface{}}
+	case "os.OpenFile":
+		fname := st.concStr(args[0], name)
+		flags := st.ConcInt(args[1].(*Term))
+		switch {
+		case flags&0x200 != 0: // O_TRUNC: same effect on an existing file as os.Create
+			st.fsEvents = append(st.fsEvents, "create:"+fname)
+		case flags&0x400 != 0:
+			st.fsEvents = append(st.fsEvents, "open-append:"+fname)
+		default:
+			st.fsEvents = append(st.fsEvents, "open-notrunc:"+fname)
+		}
+		cell := new(Value)
+		*cell = &Native{"file:" + fname}
+		return Tuple{cell, Iface{}}
 	case "(*os.File).WriteString":
 		st.fsEvents = append(st.fsEvents, "write:"+st.concStr(args[1], name))
 		return Tuple{ConstInt(64, int64(strLen(args[1]))), Iface{}}
 	case "(*os.File).Close":
 		st.fsEvents = append(st.fsEvents, "close")
+		return Iface{}
+	case "(*os.File).Write":
+		st.fsEvents = append(st.fsEvents, "write:"+st.concStr(st.conv(types.Typ[types.String], types.NewSlice(types.Typ[types.Byte]), args[1]), name))
+		return Tuple{ConstInt(64, int64(len(args[1].(Slice)))), Iface{}}
+	case "(*os.File).Truncate":
+		st.fsEvents = append(st.fsEvents, "truncate")
+		return Iface{}
+	case "(*os.File).Sync":
+		return Iface{}
+	case "os.Remove":
+		st.fsEvents = append(st.fsEvents, "remove:"+st.concStr(args[0], name))
+		return Iface{}
+	case "os.Rename":
+		st.fsEvents = append(st.fsEvents, "rename:"+st.concStr(args[0], name)+"->"+st.concStr(args[1], name))
 		return Iface{}
 	case "text/template.New":
 		return &Native{"template"}
